@@ -43,7 +43,16 @@ impl JV {
 
 const KEYS: [&str; 4] = ["num_cols", "num_rows", "data", "foo"];
 
-fn doc_text(top_map: bool, fields: &[(u64, JV)]) -> String {
+/// `top`: 1 = a JSON object; 2 = a JSON array of the field values in order (the positional
+/// form compact transports use for structs); 0 = some other top-level value or a truncation
+fn doc_text(top: u64, fields: &[(u64, JV)]) -> String {
+    if top == 2 {
+        let mut s = String::from("[");
+        for (i, (_, v)) in fields.iter().enumerate() { if i > 0 { s.push(',') } v.text(&mut s); }
+        s.push(']');
+        return s;
+    }
+    let top_map = top == 1;
     let mut s = String::new();
     s.push('{');
     for (i, (k, v)) in fields.iter().enumerate() {
@@ -65,10 +74,10 @@ fn doc_text(top_map: bool, fields: &[(u64, JV)]) -> String {
     s
 }
 
-pub fn emit_doc(out: &mut Out, transport: u64, top_map: bool, fields: &[(u64, JV)]) {
-    let mut inp = vec![DBG as u64, transport, top_map as u64, fields.len() as u64];
+pub fn emit_doc(out: &mut Out, transport: u64, top: u64, fields: &[(u64, JV)]) {
+    let mut inp = vec![DBG as u64, transport, top, fields.len() as u64];
     for (k, v) in fields { inp.push(*k); v.encode(&mut inp); }
-    let text = doc_text(top_map, fields);
+    let text = doc_text(top, fields);
     if out.want_sample() { out.sample(&format!("C19 transport {} document {}", transport, text)); }
     out.begin(19, 7, &inp);
     let res = catch_unwind(AssertUnwindSafe(|| -> Result<TooDee<u32>, String> {
@@ -92,7 +101,7 @@ pub fn replay_doc(out: &mut Out, inp: &[u64]) {
     let n = inp[3];
     let mut it = inp[4..].iter();
     let fields: Vec<(u64, JV)> = (0..n).map(|_| { let k = *it.next().unwrap(); (k, JV::decode(&mut it)) }).collect();
-    emit_doc(out, inp[1], inp[2] != 0, &fields);
+    emit_doc(out, inp[1], inp[2], &fields);
 }
 
 fn arr(n: u64) -> JV { JV::Arr((0..n).map(|i| JV::UInt(10 + i)).collect()) }
@@ -113,15 +122,16 @@ pub fn gen_c19(out: &mut Out, tier: &str, rng: &mut Rng) {
     for s in &seqs {
         for tr in 0..4 {
             let fields: Vec<(u64, JV)> = s.iter().map(|k| (*k, good(*k))).collect();
-            emit_doc(out, tr, true, &fields);
-            if s.len() <= 2 { emit_doc(out, tr, false, &fields); }
+            emit_doc(out, tr, 1, &fields);
+            if s.len() <= 2 { emit_doc(out, tr, 0, &fields); }
+            if s.len() <= 3 { emit_doc(out, tr, 2, &fields); }
         }
         // duplicated keys carrying different values (data: last one wins)
         if s.len() >= 2 {
             let mut seen = [0u64; 4];
             let fields: Vec<(u64, JV)> = s.iter().map(|k| { seen[*k as usize] += 1; let n = seen[*k as usize];
                 (*k, match k { 0 => JV::UInt(1 + n), 1 => JV::UInt(4 - n.min(3)), 2 => arr(12 / n.max(1)), _ => JV::Null }) }).collect();
-            for tr in [0, 1] { emit_doc(out, tr, true, &fields); }
+            for tr in [0, 1] { emit_doc(out, tr, 1, &fields); }
         }
     }
     // (b) every pair of dimension values x data lengths around the product, two field orders
@@ -130,8 +140,13 @@ pub fn gen_c19(out: &mut Out, tier: &str, rng: &mut Rng) {
         let lens: Vec<u64> = match p { Some(p) => vec![p, p + 1, p.saturating_sub(1), 0], None => vec![0, 4] };
         for l in lens {
             for tr in [0, 1, 3] {
-                emit_doc(out, tr, true, &[(2, arr(l)), (1, r.clone()), (0, c.clone())]);
-                if tr == 0 { emit_doc(out, tr, true, &[(0, c.clone()), (1, r.clone()), (2, arr(l))]); }
+                emit_doc(out, tr, 1, &[(2, arr(l)), (1, r.clone()), (0, c.clone())]);
+                if tr == 0 { emit_doc(out, tr, 1, &[(0, c.clone()), (1, r.clone()), (2, arr(l))]); }
+                // the same values as a positional sequence, in the serialiser's and the visitor's field order
+                if tr != 3 {
+                    emit_doc(out, tr, 2, &[(2, arr(l)), (1, r.clone()), (0, c.clone())]);
+                    emit_doc(out, tr, 2, &[(0, c.clone()), (1, r.clone()), (2, arr(l))]);
+                }
             }
         }
     } }
@@ -140,9 +155,9 @@ pub fn gen_c19(out: &mut Out, tier: &str, rng: &mut Rng) {
     for e in &bad_elems { for pos in 0..4usize {
         let mut l: Vec<JV> = (0..4).map(|i| JV::UInt(i)).collect();
         l[pos] = e.clone();
-        for tr in [0, 1] { emit_doc(out, tr, true, &[(0, JV::UInt(2)), (1, JV::UInt(2)), (2, JV::Arr(l.clone()))]); }
+        for tr in [0, 1] { emit_doc(out, tr, 1, &[(0, JV::UInt(2)), (1, JV::UInt(2)), (2, JV::Arr(l.clone()))]); }
     } }
-    for d in &dimvals { for tr in [0, 1] { emit_doc(out, tr, true, &[(0, JV::UInt(0)), (1, JV::UInt(0)), (2, d.clone())]); } }
+    for d in &dimvals { for tr in [0, 1] { emit_doc(out, tr, 1, &[(0, JV::UInt(0)), (1, JV::UInt(0)), (2, d.clone())]); } }
     // (d) random documents
     let n = if tier == "quick" { 4000 } else { 100000 };
     for _ in 0..n {
@@ -156,7 +171,8 @@ pub fn gen_c19(out: &mut Out, tier: &str, rng: &mut Rng) {
             };
             (k, v)
         }).collect();
-        emit_doc(out, rng.below(4), !rng.chance(5), &fields);
+        let top = if rng.chance(5) { 0 } else if rng.chance(8) { 2 } else { 1 };
+        emit_doc(out, rng.below(4), top, &fields);
     }
 }
 
